@@ -34,6 +34,8 @@ pub enum Profile {
     F,
     /// small batch alphabet for schedule exploration
     EB,
+    /// statically typed systems, batches with declaring controllers, thread-local (setup / dispose)
+    S,
     /// names needing sanitising / unnamed (C20)
     N,
     /// ill-formed calls at every position (C18)
@@ -50,6 +52,7 @@ fn named_before(prefix: &[Op]) -> Vec<String> {
         .filter_map(|o| match o {
             Op::Sys(s) if !s.name.is_empty() => Some(s.name.clone()),
             Op::Batch(b) if !b.name.is_empty() => Some(b.name.clone()),
+            Op::Static(st) if !st.name.is_empty() => Some(st.name.clone()),
             _ => None,
         })
         .collect()
@@ -149,6 +152,7 @@ impl Profile {
             Profile::E { inner_max, rich } => format!("E(batches; inner plans of <= {} ops, rich {})", inner_max, rich),
             Profile::F => "F(thread-local)".to_string(),
             Profile::EB => "EB(small batch alphabet)".to_string(),
+            Profile::S => "S(statically typed systems, declaring controllers, thread-local)".to_string(),
             Profile::N => "N(names)".to_string(),
             Profile::Ill => "Ill(ill-formed calls)".to_string(),
         }
@@ -207,6 +211,27 @@ impl Profile {
                             Op::Batch(BatchSpec { name: name.clone(), deps: vec![], ctrl, times: 1 + (i as u8 % 2), multi: false, fetch_data: false, inner }),
                             false,
                         ));
+                    }
+                }
+            }
+            Profile::S => {
+                for d in StaticData::all() {
+                    out.push((Op::Static(StaticSpec { name: name.clone(), deps: vec![], data: d, time: 3 }), false));
+                }
+                out.push((s(name.clone(), &[], &[1], 3, vec![]), false));
+                out.push((Op::Tl(SysSpec { name: String::new(), reads: vec![], writes: vec![], time: 3, deps: vec![] }), false));
+                let st = |d: StaticData| Op::Static(StaticSpec { name: "x".into(), deps: vec![], data: d, time: 3 });
+                let inners: Vec<Vec<Op>> = vec![
+                    vec![],
+                    vec![st(StaticData::ReadA)],
+                    vec![st(StaticData::OptWriteC)],
+                    vec![st(StaticData::ReadExpectA)],
+                    vec![Op::Batch(BatchSpec { name: "n".into(), deps: vec![], ctrl: CtrlData::WriteC, times: 1, multi: false, fetch_data: false, inner: vec![st(StaticData::ReadA)] })],
+                    vec![Op::Batch(BatchSpec { name: "n".into(), deps: vec![], ctrl: CtrlData::Unit, times: 1, multi: true, fetch_data: false, inner: vec![st(StaticData::WriteC)] })],
+                ];
+                for ctrl in [CtrlData::Unit, CtrlData::ReadA, CtrlData::WriteC] {
+                    for inner in &inners {
+                        out.push((Op::Batch(BatchSpec { name: name.clone(), deps: vec![], ctrl, times: 1, multi: false, fetch_data: false, inner: inner.clone() }), false));
                     }
                 }
             }
@@ -360,6 +385,7 @@ fn hash_state(ops: &[Op], l: &crate::hsys::Layout) -> u64 {
                     (r, w, s.time).hash(h);
                 }
                 Op::Barrier => 0xBAu8.hash(h),
+                Op::Static(st) => (st.data.label(), st.time).hash(h),
                 Op::Batch(b) => {
                     (b.ctrl.label(), b.times).hash(h);
                     ann(&b.inner, h);
@@ -385,7 +411,7 @@ fn redundant_barrier_removed(ops: &[Op]) -> Option<Vec<Op>> {
                     removed = true;
                 }
             }
-            Op::Sys(_) | Op::Batch(_) => {
+            Op::Sys(_) | Op::Batch(_) | Op::Static(_) => {
                 since = true;
                 out.push(o.clone());
             }
